@@ -18,7 +18,7 @@ from dataclasses import dataclass, field
 from fractions import Fraction
 
 from .index import ClassInfo, FuncInfo, ModuleInfo, Program
-from .nf import NF, Atom, Undecided, app, lift, nf_equal, sym
+from .nf import NF, Atom, Undecided, app, atoms_of, lift, nf_equal, subst, sym
 from .values import (
     NONE,
     ArrObj,
@@ -894,6 +894,20 @@ class Executor:
                     return [Num(NF.const(i), (), "int") for i in vals]
         if isinstance(it, DictV):
             return [k for k, _ in it.items]
+        if getattr(self, "unroll_zip", False) and isinstance(it, OpaqueV) and it.meta.get("kind") == "zip":
+            # zip stops at its shortest part: with a part of known length m the loop runs at most m times.  The
+            # symbolic parts are assumed at least that long (event zip_unroll records them so a rule can demand
+            # the path facts entail it).
+            parts = it.meta["parts"]
+            lens = [len(q.items) for q in parts if isinstance(q, TupleV) or (isinstance(q, ListV) and not q.opaque)]
+            if lens and min(lens) <= self.unroll_limit:
+                m = min(lens)
+                self.emit("zip_unroll", None, parts=parts, length=m)
+                out = []
+                for k in range(m):
+                    idx = Num(NF.const(k), (), "int")
+                    out.append(TupleV([self._elem_at(q, idx, None, None) for q in parts]))
+                return out
         return None
 
     def generic_element(self, it, ctx: LoopCtx, node):
@@ -929,6 +943,17 @@ class Executor:
             return OpaqueV(f"elem({valkey(it)})")
         raise Undecided(f"iteration over {it!r}", node)
 
+    def _at(self, v, pos):
+        if isinstance(v, Num):
+            m = {}
+            for k, a in atoms_of(v.nf).items():
+                if k in self.elem_atoms:
+                    m[k] = app("at", NF.atom(a), pos)
+            return Num(subst(v.nf, m), v.shape, v.dtype, v.pytype) if m else v
+        if isinstance(v, TupleV):
+            return TupleV([self._at(x, pos) for x in v.items])
+        return v
+
     def _seq_len(self, p):
         if isinstance(p, Num) and p.shape is not None and len(p.shape) >= 1:
             return lift(p.shape[0])
@@ -947,7 +972,30 @@ class Executor:
             return Num(p.lo.nf + idx.nf * p.step.nf, (), "int")
         if isinstance(p, Num):
             return self.index_num(p, [idx], node)
+        if isinstance(p, TupleV) or (isinstance(p, ListV) and not p.opaque):
+            c = idx.nf.as_const()
+            if c is not None and 0 <= c < len(p.items):
+                return p.items[int(c)]
         if isinstance(p, ListV):
+            so = getattr(p, "slice_of", None)
+            if p.opaque and so is not None and isinstance(so[0], ListV) and isinstance(so[1].lo, (Num, NoneV)) and (isinstance(so[1].step, NoneV)):
+                base, sl = so
+                lo = NF.const(0) if isinstance(sl.lo, NoneV) else sl.lo.nf
+                if (getattr(base, "numeric", False) or getattr(base, "parts", None) is not None) and lo.as_const() is not None and lo.as_const() >= 0:
+                    return Num(app("listitem", base.lid, lo + idx.nf), (), None, meta={"list_item": (base, idx)})
+            if p.opaque and (getattr(p, "numeric", False) or getattr(p, "parts", None) is not None) and p.elem is None:
+                return Num(app("listitem", p.lid, idx.nf), (), None, meta={"list_item": (p, idx)})
+            if p.opaque and p.elem is not None and getattr(self, "elem_atoms", None):
+                # positional view of a homogeneous list: element atoms become at(atom, position)
+                off = NF.const(0)
+                q = p
+                while getattr(q, "slice_of", None) is not None:
+                    base, sl = q.slice_of
+                    if not isinstance(sl.step, NoneV) or not isinstance(sl.lo, (Num, NoneV)):
+                        return self.list_elem(p, node)
+                    off = off + (NF.const(0) if isinstance(sl.lo, NoneV) else sl.lo.nf)
+                    q = base
+                return self._at(p.elem, off + idx.nf)
             return self.list_elem(p, node)
         if isinstance(p, OpaqueV) and p.meta.get("kind") == "zip":
             return TupleV([self._elem_at(q, idx, ctx, node) for q in p.meta["parts"]])
@@ -1286,7 +1334,7 @@ class Executor:
             if c is not None and not getattr(seq, "opaque", False) and 0 <= c <= 16:
                 items = seq.items * int(c)
                 return TupleV(items) if isinstance(seq, TupleV) else ListV(items, lid=self.list_counter)
-            r = ListV(list(seq.items), opaque=True, lid=self.list_counter, elem=seq.items[0] if len(seq.items) == 1 else None)
+            r = ListV(list(seq.items), opaque=True, lid=self.list_counter, elem=seq.items[0] if len(seq.items) == 1 else getattr(seq, "elem", None))
             r.repeat = (seq, k)
             return r
         if isinstance(a, Num) and isinstance(b, Num):
